@@ -9,6 +9,7 @@ import collections, json, os, random
 
 _installed = {}
 RECORDERS = []          # all recorders created since install(), in creation order
+BY_MANAGER = {}         # id(manager) -> its recorder (the recorder keeps the manager alive, so the id is not reused)
 
 
 def path_of(r, xr):
@@ -109,11 +110,14 @@ class Recorder:
                     have = tid._get_value()
                 except Exception:
                     continue
-                same = (want == have) or (want != want and have != have)
                 try:
-                    same = bool(same)
+                    same = bool((want == have) or (want != want and have != have))
                 except Exception:
-                    same = True
+                    try:
+                        import numpy as _np
+                        same = bool(_np.all(_np.asarray(want == have)))
+                    except Exception:
+                        same = True
                 if not same or type(want) is not type(have):
                     out.append(self.task_ids.get(path_of(tid, self.xr), 0))
         return out
@@ -149,11 +153,13 @@ def install(xdeps_mod):
     M = xt.Manager
 
     def rec(self):
-        r = self.__dict__.get("_xdv_rec")
-        if r is None:
+        r = BY_MANAGER.get(id(self))           # kept outside the manager: a recorder in its __dict__ would travel with pickle / copy
+        if r is None or r.m is not self:
             r = Recorder(self, xt, xr)
-            self.__dict__["_xdv_rec"] = r
+            BY_MANAGER[id(self)] = r
             RECORDERS.append(r)
+            for task in list(getattr(self, "tasks", {}).values()):       # a manager born with tasks (unpickled, copied, cloned): they count as registered
+                r.events.append({"ev": "Reg", "t": r.T(task)})
         return r
     o_set, o_reg, o_unreg = M.set_value, M.register, M.unregister
 
@@ -205,8 +211,8 @@ def install(xdeps_mod):
                     mgr = getattr(d, "_manager", None)
                     if mgr is not None:
                         break
-            if mgr is not None and "_xdv_rec" in mgr.__dict__:
-                r = mgr.__dict__["_xdv_rec"]
+            r = BY_MANAGER.get(id(mgr)) if mgr is not None else None
+            if r is not None and r.m is mgr:
                 r.events.append({"ev": "Run", "t": r.T(self)})
             return _orig(self)
         cls.run = run
@@ -289,10 +295,10 @@ def driver_random(seed, nloc=30, nsteps=60, idx_every=5):
             r = ref(j)
             if r in m.tasks:
                 m.unregister(r)
-        rec_ = m.__dict__.get("_xdv_rec")
+        rec_ = BY_MANAGER.get(id(m))
         if rec_ is not None:
             rec_.idx_every = idx_every
-    return m.__dict__.get("_xdv_rec")
+    return BY_MANAGER.get(id(m))
 
 
 def driver_chain(n, reverse=False):
@@ -304,7 +310,7 @@ def driver_chain(n, reverse=False):
     order = range(n, 0, -1) if reverse else range(1, n + 1)
     for i in order:
         s[f"x{i}"] = s[f"x{i - 1}"] + 1
-    rec_ = m.__dict__["_xdv_rec"]
+    rec_ = BY_MANAGER[id(m)]
     rec_.stale_cap = 100000
     s["x0"] = 5.0
     s["x0"] = 7.0
@@ -323,7 +329,7 @@ def driver_fan(w):
     s["total"] = sum((s[f"y{i}"] for i in range(1, min(w, 40))), s["y0"])
     s["a"] = 3.0
     s["b"] = -1.0
-    return m.__dict__["_xdv_rec"]
+    return BY_MANAGER[id(m)]
 
 
 def worker(job, shard, nshards):
